@@ -88,7 +88,7 @@ static void mode_dec(void){
     int fsz=opus_packet_get_nb_samples(s.pkt[k],s.len[k],Fs); if(fsz<=0||fsz>cap) continue;
     for(int pass=(kind==2?0:1);pass<2;pass++){ int fec=(pass==0); const unsigned char *p=s.pkt[k]; int l=s.len[k]; unsigned char *tmp=NULL;
       if(kind==1){ p=NULL; l=0; } if(kind==3){ memcpy(hb,s.pkt[k],s.len[k]); l=vk_mutate(&r,hb,s.len[k],2000); tmp=vc_exact_copy(hb,l); p=tmp; }
-      int want=fsz; if(kind==3) want=cap;
+      int want=fsz; if(kind==3) want=cap; if(fec&&2*fsz<=cap&&vc_chance(&r,1,2)){ want=2*fsz; vc_count("dec_fec_calls_longer_than_the_packet",1); }   /* an FEC call bridging a gap longer than the packet */
       int rf=opus_decode_float(df,p,l,of,want,fec), r16=opus_decode(d16,p,l,o16,want,fec), r24=opus_decode24(d24,p,l,o24,want,fec); vc_count("dec_triples",1);
       if(rf<=0&&r16<=0&&r24<=0){ vc_count("dec_rejected_by_all",1); free(tmp); continue; }   /* error codes are not part of the relation */
       if(rf!=r16||rf!=r24){ vc_viol("dec:count-differs","call %d kind %d fec %d: float %d int16 %d int24 %d",k,kind,fec,rf,r16,r24); free(tmp); goto out; }
